@@ -91,6 +91,16 @@ def shapes(tier):
         out.append({"mode": "inmem", "N": N, "n_lin": 1, "kmax": "sym", "neginf": ninf})
         out.append({"mode": "file", "N": N, "n_lin": 1, "kmax": "none", "n_batches": 2, "randomize": False, "n_prior": None,
                     "src": "filename" if N % 2 else "object", "pool": 1, "neginf": ninf})
+    # call histories: an earlier call on another library under the same file name / in the same JokerSamples object
+    for N in ([2] if tier == "quick" else [2, 3]):
+        out.append({"mode": "file", "N": N, "n_lin": 1, "kmax": "none", "n_batches": 2, "randomize": False, "n_prior": None, "src": "filename",
+                    "pool": 1, "history": "file_rewritten"})
+        out.append({"mode": "file", "N": N, "n_lin": 1, "kmax": "none", "n_batches": None, "randomize": N == 2, "n_prior": None, "src": "object",
+                    "pool": 1, "history": "object_reassigned"})
+        out.append({"mode": "api", "N": N, "n_lin": 1, "kmax": "none", "in_memory": True, "src": "object", "randomize": False, "n_batches": None,
+                    "pool": 1, "history": "object_reassigned"})
+        out.append({"mode": "api", "N": N, "n_lin": 1, "kmax": "none", "in_memory": False, "src": "filename", "randomize": False, "n_batches": 1,
+                    "pool": 1, "history": "file_rewritten"})
     for N in ([2, 3] if tier == "quick" else [2, 3, 4]):
         out.append({"mode": "file", "N": N, "n_lin": 1, "kmax": "none", "n_batches": None, "randomize": False,
                     "n_prior": N + 1, "src": "filename", "pool": 1})
@@ -119,6 +129,9 @@ def run_harness(S, shape, logprobs=False, all_logprobs=False, fault_at=None):
     rng = env.SymRng(w)
     mode = shape["mode"]
     info = {"lib": lib, "lnp": lnp, "kmax": kmax, "N": N, "n_lin": nlin, "shape": shape}
+    hist = shape.get("history")
+    if hist:
+        return _run_history(S, shape, info, logprobs, all_logprobs)
     if mode == "inmem":
         h = S.helper()
         batch = S.as_packed(lib)
@@ -156,6 +169,70 @@ def run_harness(S, shape, logprobs=False, all_logprobs=False, fault_at=None):
         info.update(n_eval=N, randomized=shape["randomize"] and not shape["in_memory"])
     else:
         raise ValueError(mode)
+    all_ll = None
+    if all_logprobs:
+        out, all_ll = out
+    info["obs"] = groupa.observe_samples(out)
+    info["all_ll"] = all_ll
+    info["world_log"] = list(w.log)
+    info["files"] = dict(w.files)
+    return info
+
+
+def _run_history(S, shape, info, logprobs, all_logprobs):
+    """call history (bounded to one earlier call): the same sampler / helper first runs on ANOTHER library of the
+    same size that lives under the same file name ('file_rewritten') or in the same JokerSamples object
+    ('object_reassigned': every column re-assigned through __setitem__ afterwards); the property is then asserted
+    on the second call.  State kept by the code between calls is thereby part of the symbolic run."""
+    w = S.w
+    N, nlin, kmax, hist, mode = info["N"], info["n_lin"], info["kmax"], shape["history"], shape["mode"]
+    lib, lnp = info["lib"], info["lnp"]
+    libA, lnpA = S.library(N, with_lnp=True, tag="pre")
+    pool = env.Pool(w, size=shape.get("pool", 1), order="reversed")
+    lu = S.lib_units()
+
+    def reassign(sobj):
+        for ci, c in enumerate(NL):
+            sobj[c] = units.Quantity(symnp.SymArray(symnp._obj([r[ci] for r in lib]), symnp._F8), lu[c])
+        sobj["ln_prior"] = units.Quantity(symnp.SymArray(symnp._obj(list(lnp)), symnp._F8), units.one)
+
+    def between():
+        w.streams.clear()
+        del w.log[:]
+        for h_ in S.helpers:
+            del h_.ll_calls[:]
+            del h_.post_calls[:]
+        S.prior_sample_rngs = []
+    if mode == "file":
+        h = S.helper()
+        src = S.as_file(libA, lnpA) if hist == "file_rewritten" else S.as_samples(libA, lnpA)
+
+        def call(rng_):
+            return S.mp.rejection_sample_helper(h, src, pool=pool, rng=rng_, n_prior_samples=shape["n_prior"],
+                                                max_posterior_samples=kmax, n_linear_samples=nlin, return_logprobs=logprobs,
+                                                n_batches=shape["n_batches"], randomize_prior_order=shape["randomize"],
+                                                return_all_logprobs=all_logprobs)
+        info.update(n_eval=shape["n_prior"] if shape["n_prior"] is not None else N, randomized=shape["randomize"])
+    else:
+        joker = S.st.thejoker.TheJoker(S.JokerPrior(S), pool=pool, rng=env.SymRng(w))
+        src = S.as_file(libA, lnpA) if hist == "file_rewritten" else S.as_samples(libA, lnpA)
+        import types as _t
+        data = _t.SimpleNamespace(t_ref=units.Time(core.real("t_ref")))
+
+        def call(rng_):
+            joker.rng = rng_
+            return joker.rejection_sample(data, src, max_posterior_samples=kmax, n_linear_samples=nlin, return_logprobs=logprobs,
+                                          return_all_logprobs=all_logprobs, n_batches=shape["n_batches"],
+                                          randomize_prior_order=shape["randomize"], in_memory=shape["in_memory"])
+        info["logprobs_effective"] = logprobs
+        info.update(n_eval=N, randomized=shape["randomize"] and not shape["in_memory"])
+    call(env.SymRng(w))                      # the earlier call (its result is some other check's subject)
+    between()
+    if hist == "file_rewritten":
+        S.as_file(lib, lnp)                  # same name, same number of rows, other content
+    else:
+        reassign(src)
+    out = call(env.SymRng(w))
     all_ll = None
     if all_logprobs:
         out, all_ll = out
@@ -451,54 +528,82 @@ def _replay_once(cand, focus, shift):
     helper = FakeHelper()
     tmpd = tempfile.mkdtemp(prefix="verif_c02_")
     try:
+        hist = shape.get("history")
+        colu = list(zip(["P", "e", "omega", "M0", "s"], [u.day, u.one, u.rad, u.rad, u.km / u.s]))
+
+        def fill(obj, L_, lp_):
+            for ci, (c, un) in enumerate(colu):
+                obj[c] = L_[:, ci] * un
+            obj["ln_prior"] = lp_
         prior = JokerSamples(poly_trend=1, n_offsets=0)
-        for ci, (c, un) in enumerate(zip(["P", "e", "omega", "M0", "s"], [u.day, u.one, u.rad, u.rad, u.km / u.s])):
-            prior[c] = lib[:, ci] * un
-        prior["ln_prior"] = lnp
         fn = os.path.join(tmpd, "lib.hdf5")
+        libA = lib + np.array([100.0, 0.0, 0.0, 0.0, 0.0])
+        lnpA = lnp - 1000.0
+        if hist:
+            for r in libA:
+                key[tuple(np.round(r, 12))] = 0.0
+            fill(prior, libA, lnpA)
+        else:
+            fill(prior, lib, lnp)
         prior.write(fn, overwrite=True)
-        before = open(fn, "rb").read()
         logprobs = focus == "C06" and nlin == 1
         all_lp = focus == "C06"
         mode = shape["mode"]
-        try:
+        import schwimmbad
+        import thejoker.thejoker as tjm
+        from thejoker import TheJoker
+        joker = TheJoker.__new__(TheJoker)
+        joker.pool, joker.prior = schwimmbad.SerialPool(), object.__new__(thejoker.JokerPrior)
+        lg = logprobs
+        if mode == "api":
+            lg = logprobs and not (shape["in_memory"] and shape["src"] == "filename")
+
+        def do_call(rng_):
             if mode == "inmem":
                 packed, _ = prior.pack(units=helper.internal_units, names=helper.packed_order)
-                out = lh.rejection_sample_inmem(helper, packed, rng, ln_prior=(lnp if logprobs else None), max_posterior_samples=kmax,
-                                                n_linear_samples=nlin, return_all_logprobs=all_lp)
-                n_eval, randomized = N, False
-            elif mode == "file":
-                import schwimmbad
+                return lh.rejection_sample_inmem(helper, packed, rng_, ln_prior=(lnp if logprobs else None), max_posterior_samples=kmax,
+                                                 n_linear_samples=nlin, return_all_logprobs=all_lp)
+            if mode == "file":
                 src = fn if shape["src"] == "filename" else prior
-                out = mph.rejection_sample_helper(helper, src, pool=schwimmbad.SerialPool(), rng=rng, n_prior_samples=shape["n_prior"],
-                                                  max_posterior_samples=kmax, n_linear_samples=nlin, return_logprobs=logprobs,
-                                                  n_batches=shape["n_batches"], randomize_prior_order=shape["randomize"],
-                                                  return_all_logprobs=all_lp)
-                n_eval = shape["n_prior"] if shape["n_prior"] is not None else N
-                randomized = shape["randomize"]
-            else:
-                from thejoker import TheJoker
-                import thejoker.thejoker as tjm
-                orig = tjm.TheJoker._make_joker_helper
-                tjm.TheJoker._make_joker_helper = lambda self, data: helper
-                try:
-                    jp = object.__new__(thejoker.JokerPrior)
-                    import schwimmbad
-                    joker = TheJoker.__new__(TheJoker)
-                    joker.pool, joker.rng, joker.prior = schwimmbad.SerialPool(), rng, jp
-                    if shape["src"] == "filename":
-                        src = fn if not shape["in_memory"] else prior.pack(units=helper.internal_units, names=helper.packed_order)[0]
-                    else:
-                        src = prior
-                    lg = logprobs and not (shape["in_memory"] and shape["src"] == "filename")
-                    out = joker.rejection_sample(None, src, max_posterior_samples=kmax, n_linear_samples=nlin, return_logprobs=lg,
-                                                 return_all_logprobs=all_lp, n_batches=shape["n_batches"],
-                                                 randomize_prior_order=shape["randomize"], in_memory=shape["in_memory"])
-                    logprobs = lg
-                finally:
-                    tjm.TheJoker._make_joker_helper = orig
-                n_eval = N
-                randomized = shape["randomize"] and not shape["in_memory"]
+                return mph.rejection_sample_helper(helper, src, pool=schwimmbad.SerialPool(), rng=rng_, n_prior_samples=shape["n_prior"],
+                                                   max_posterior_samples=kmax, n_linear_samples=nlin, return_logprobs=logprobs,
+                                                   n_batches=shape["n_batches"], randomize_prior_order=shape["randomize"],
+                                                   return_all_logprobs=all_lp)
+            orig = tjm.TheJoker._make_joker_helper
+            tjm.TheJoker._make_joker_helper = lambda self, data: helper
+            try:
+                joker.rng = rng_
+                if shape["src"] == "filename":
+                    src = fn if not shape["in_memory"] else prior.pack(units=helper.internal_units, names=helper.packed_order)[0]
+                else:
+                    src = prior
+                return joker.rejection_sample(None, src, max_posterior_samples=kmax, n_linear_samples=nlin, return_logprobs=lg,
+                                              return_all_logprobs=all_lp, n_batches=shape["n_batches"],
+                                              randomize_prior_order=shape["randomize"], in_memory=shape["in_memory"])
+            finally:
+                tjm.TheJoker._make_joker_helper = orig
+        if mode == "inmem":
+            n_eval, randomized = N, False
+        elif mode == "file":
+            n_eval = shape["n_prior"] if shape["n_prior"] is not None else N
+            randomized = shape["randomize"]
+        else:
+            n_eval = N
+            randomized = shape["randomize"] and not shape["in_memory"]
+            logprobs = lg
+        try:
+            if hist:
+                # the shape's call history: an earlier call on another library under the same name / in the same object
+                do_call(np.random.default_rng(3))
+                FakeHelper.evaluated = []
+                if hist == "file_rewritten":
+                    fresh = JokerSamples(poly_trend=1, n_offsets=0)
+                    fill(fresh, lib, lnp)
+                    fresh.write(fn, overwrite=True)
+                else:
+                    fill(prior, lib, lnp)
+            before = open(fn, "rb").read()
+            out = do_call(rng)
         except Exception as e:
             if mode == "file" and shape.get("n_prior") is not None and shape["n_prior"] > N and isinstance(e, ValueError):
                 return {"reproduced": False, "detail": "raised the documented ValueError"}
